@@ -190,22 +190,40 @@ def ticketRecs (cfg : Cfg) : List (Rec TicketAcc) := [
   ⟨orderType, dVarBytes cfg (fun v a => { a with orderBytes := v })⟩,
   ⟨executionType, dVarBytes cfg (fun v a => { a with executionBytes := v })⟩]
 
+/-- `if t, ok := parsedTypes[typ]; ok && t == nil { part, err := deserialize…(bytes); … ; ticket.Part = &part }` -/
+def optPart {α : Type} (present : Bool) (f : Outcome α) : Outcome (Option α) :=
+  if present then
+    match f with
+    | .ok a => .ok (some a)
+    | .err e => .err e
+    | .panic => .panic
+  else .ok none
+
 /-- `DeserializeTicket`: top-level stream with the parsed-types map, then the sub-streams of the parts
 whose record was present. -/
 def deserializeTicket (cfg : Cfg) (b : Bytes) : Outcome Ticket :=
   match decodeStream cfg.p2pTop cfg.maxAlloc true (ticketRecs cfg) b {} with
   | .err e => .err e
   | .panic => .panic
-  | .ok (a, parsed) => do
-    let offer ← if parsed.contains offerType then deserializeOffer cfg a.offerBytes else pure {}
-    let recipient ← if parsed.contains recipientType then
-        (do let r ← deserializeRecipient cfg a.recipientBytes; pure (some r)) else pure none
-    let order ← if parsed.contains orderType then
-        (do let o ← deserializeOrder cfg a.orderBytes; pure (some o)) else pure none
-    let execution ← if parsed.contains executionType then
-        (do let e ← deserializeExecution cfg a.executionBytes; pure (some e)) else pure none
-    pure { id := a.id, version := a.version, state := a.state, offer := offer, recipient := recipient,
-           order := order, execution := execution }
+  | .ok (a, parsed) =>
+  match (if parsed.contains offerType then deserializeOffer cfg a.offerBytes else .ok {}) with
+  | .err e => .err e
+  | .panic => .panic
+  | .ok offer =>
+  match optPart (parsed.contains recipientType) (deserializeRecipient cfg a.recipientBytes) with
+  | .err e => .err e
+  | .panic => .panic
+  | .ok recipient =>
+  match optPart (parsed.contains orderType) (deserializeOrder cfg a.orderBytes) with
+  | .err e => .err e
+  | .panic => .panic
+  | .ok order =>
+  match optPart (parsed.contains executionType) (deserializeExecution cfg a.executionBytes) with
+  | .err e => .err e
+  | .panic => .panic
+  | .ok execution =>
+    .ok { id := a.id, version := a.version, state := a.state, offer := offer, recipient := recipient,
+          order := order, execution := execution }
 
 /-- The decode variants the current source of sidecar/tlv.go calls (regenerated fact). -/
 def repoCfg (maxAlloc : Nat) : Cfg :=
